@@ -16,13 +16,13 @@
 package jail
 
 import (
-	"crypto/sha256"
 	"fmt"
 	"io/fs"
 	"os"
 	"path/filepath"
 	"sort"
 	"strings"
+	"syscall"
 
 	"pgregory.net/rapid"
 )
@@ -37,6 +37,9 @@ type Jail struct {
 	Base string // temp dir holding everything that is snapshotted
 	Dir  string // Base/jail
 	Root string // Base/jail/root  (the backend root)
+
+	canon       Snapshot // state right after (re)building
+	hasRootPart bool
 }
 
 // InsideFiles are the root-relative files seeded inside the root.
@@ -46,6 +49,10 @@ var InsideFiles = []string{
 	"db/mem/c.parquet",
 	"top.parquet",
 }
+
+var decoys = []string{"outer.parquet", "jail/secret.parquet", "jail/rootx/f.parquet"}
+
+const rootPartDecoy = "jail/root.part"
 
 func canaryContent(name string) []byte {
 	b := []byte(Canary + ":" + name + ":")
@@ -61,32 +68,132 @@ func InsideContent(rel string) []byte { return []byte("inside:" + rel) }
 // New creates the layout under base (which must exist and be empty).
 func New(base string, withRootPart bool) (*Jail, error) {
 	j := &Jail{Base: base, Dir: filepath.Join(base, "jail"), Root: filepath.Join(base, "jail", "root")}
-	if err := os.MkdirAll(j.Root, 0o700); err != nil {
+	if err := j.build(withRootPart); err != nil {
 		return nil, err
 	}
-	decoys := []string{"outer.parquet", "jail/secret.parquet", "jail/rootx/f.parquet"}
-	if withRootPart {
-		decoys = append(decoys, "jail/root.part")
+	return j, nil
+}
+
+func (j *Jail) build(withRootPart bool) error {
+	ents, err := os.ReadDir(j.Base)
+	if err != nil {
+		return err
 	}
-	for _, d := range decoys {
-		p := filepath.Join(base, d)
+	for _, e := range ents {
+		if err := os.RemoveAll(filepath.Join(j.Base, e.Name())); err != nil {
+			return err
+		}
+	}
+	if err := os.MkdirAll(j.Root, 0o700); err != nil {
+		return err
+	}
+	ds := append([]string{}, decoys...)
+	if withRootPart {
+		ds = append(ds, rootPartDecoy)
+	}
+	for _, d := range ds {
+		p := filepath.Join(j.Base, d)
 		if err := os.MkdirAll(filepath.Dir(p), 0o700); err != nil {
-			return nil, err
+			return err
 		}
 		if err := os.WriteFile(p, canaryContent(d), 0o600); err != nil {
-			return nil, err
+			return err
 		}
+	}
+	if err := j.seedInside(); err != nil {
+		return err
+	}
+	j.hasRootPart = withRootPart
+	j.canon, err = j.Snap()
+	return err
+}
+
+func (j *Jail) seedInside() error {
+	if err := os.MkdirAll(j.Root, 0o700); err != nil {
+		return err
 	}
 	for _, rel := range InsideFiles {
 		p := filepath.Join(j.Root, rel)
 		if err := os.MkdirAll(filepath.Dir(p), 0o700); err != nil {
-			return nil, err
+			return err
 		}
 		if err := os.WriteFile(p, InsideContent(rel), 0o600); err != nil {
-			return nil, err
+			return err
 		}
 	}
-	return j, nil
+	return nil
+}
+
+// Reset brings the jail back to its canonical freshly-built state and returns
+// the snapshot of that state. Only what differs is redone: the optional
+// root.part decoy is toggled in place, a changed root is re-seeded, and only a
+// change outside the root forces a full rebuild. Every rapid case starts with
+// Reset, so cases never see each other's residue.
+func (j *Jail) Reset(withRootPart bool) (Snapshot, error) {
+	if err := j.reset(withRootPart); err != nil {
+		return nil, err
+	}
+	out := make(Snapshot, len(j.canon))
+	for k, v := range j.canon {
+		out[k] = v
+	}
+	return out, nil
+}
+
+func (j *Jail) reset(withRootPart bool) error {
+	cur, err := j.Snap()
+	if err != nil || j.VerifyDecoys() != "" {
+		return j.build(withRootPart)
+	}
+	changes := Diff(j.canon, cur)
+	if len(j.Outside(changes)) > 0 {
+		return j.build(withRootPart)
+	}
+	if len(changes) > 0 {
+		// only the inside of the root changed: re-seed it
+		if err := os.RemoveAll(j.Root); err != nil {
+			return err
+		}
+		if err := j.seedInside(); err != nil {
+			return err
+		}
+		if j.canon, err = j.Snap(); err != nil {
+			return err
+		}
+	}
+	if withRootPart != j.hasRootPart {
+		p := filepath.Join(j.Base, rootPartDecoy)
+		if withRootPart {
+			if err := os.WriteFile(p, canaryContent(rootPartDecoy), 0o600); err != nil {
+				return err
+			}
+		} else if err := os.Remove(p); err != nil {
+			return err
+		}
+		j.hasRootPart = withRootPart
+		if j.canon, err = j.Snap(); err != nil {
+			return err
+		}
+	}
+	return nil
+}
+
+// VerifyDecoys re-reads every decoy and reports the first whose bytes changed ("" = intact).
+func (j *Jail) VerifyDecoys() string {
+	ds := append([]string{}, decoys...)
+	if j.hasRootPart {
+		ds = append(ds, rootPartDecoy)
+	}
+	for _, d := range ds {
+		b, err := os.ReadFile(filepath.Join(j.Base, d))
+		if err != nil {
+			return fmt.Sprintf("decoy %s unreadable: %v", d, err)
+		}
+		if string(b) != string(canaryContent(d)) {
+			return fmt.Sprintf("decoy %s content changed (%d bytes)", d, len(b))
+		}
+	}
+	return ""
 }
 
 // DecoyPaths returns the absolute paths of the decoys (hostile keys like to name them).
@@ -106,17 +213,20 @@ func (j *Jail) Inside(abs string) bool {
 	return abs == j.Root || strings.HasPrefix(abs, j.Root+string(filepath.Separator))
 }
 
-// Entry describes one path in a snapshot.
+// Entry describes one path in a snapshot. Directories compare by type only
+// (their mtime moves whenever a child is added, and timestamps are too coarse
+// to be a deterministic witness); files by type, size, inode and mtime.
 type Entry struct {
-	Mode fs.FileMode // type bits only
-	Size int64
-	Sum  [32]byte // regular files only
+	Mode  fs.FileMode // type bits only
+	Size  int64
+	Ino   uint64
+	Mtime int64
 }
 
 // Snapshot maps Base-relative paths to entries.
 type Snapshot map[string]Entry
 
-// Snap walks Base.
+// Snap walks Base (lstat only; no file is opened).
 func (j *Jail) Snap() (Snapshot, error) {
 	s := Snapshot{}
 	err := filepath.WalkDir(j.Base, func(p string, d fs.DirEntry, err error) error {
@@ -132,13 +242,12 @@ func (j *Jail) Snap() (Snapshot, error) {
 			return err
 		}
 		e := Entry{Mode: info.Mode().Type()}
-		if info.Mode().IsRegular() {
-			b, err := os.ReadFile(p)
-			if err != nil {
-				return err
+		if !info.IsDir() {
+			e.Size = info.Size()
+			e.Mtime = info.ModTime().UnixNano()
+			if st, ok := info.Sys().(*syscall.Stat_t); ok {
+				e.Ino = st.Ino
 			}
-			e.Size = int64(len(b))
-			e.Sum = sha256.Sum256(b)
 		}
 		s[rel] = e
 		return nil
@@ -186,9 +295,10 @@ func (j *Jail) Outside(ch []Change) []Change {
 	return out
 }
 
-// CheckConfined snapshots, runs op, snapshots again and returns an error text
-// when op touched anything outside the root ("" = confined). It also returns
-// the full list of changes.
+// CheckConfined snapshots the tree, diffs it against before and returns a
+// violation text when anything outside the root was created, removed or
+// modified ("" = confined), together with the new snapshot and all changes.
+// When something changed it also re-reads the decoys byte for byte.
 func (j *Jail) CheckConfined(before Snapshot) (after Snapshot, changes []Change, violation string) {
 	after, err := j.Snap()
 	if err != nil {
@@ -197,6 +307,11 @@ func (j *Jail) CheckConfined(before Snapshot) (after Snapshot, changes []Change,
 	changes = Diff(before, after)
 	if out := j.Outside(changes); len(out) > 0 {
 		return after, changes, fmt.Sprintf("paths outside the root were touched: %v", out)
+	}
+	if len(changes) > 0 {
+		if v := j.VerifyDecoys(); v != "" {
+			return after, changes, "a file outside the root was rewritten: " + v
+		}
 	}
 	return after, changes, ""
 }
@@ -260,13 +375,25 @@ func GenKey(t *rapid.T, extra []string) string {
 		// arbitrary unicode string
 		return rapid.StringN(0, 40, 200).Draw(t, "raw")
 	case 3:
-		// over-long segment / over-long key
-		n := rapid.SampledFrom([]int{200, 255, 256, 300, 1024, 5000}).Draw(t, "longLen")
-		seg := strings.Repeat(rapid.SampledFrom([]string{"a", ".", "é", "/a", "../"}).Draw(t, "longUnit"), n)
-		if rapid.Bool().Draw(t, "longPrefix") {
-			return "db/" + seg + "/x.parquet"
+		// over-long segment / over-long key / deep traversal chain. Depth is kept
+		// moderate (a 5000-deep directory chain only slows the walk down); length
+		// limits are crossed with long SEGMENTS instead (NAME_MAX 255, PATH_MAX 4096).
+		switch rapid.IntRange(0, 3).Draw(t, "longKind") {
+		case 0:
+			n := rapid.SampledFrom([]int{200, 255, 256, 300, 1024, 5000}).Draw(t, "longLen")
+			seg := strings.Repeat(rapid.SampledFrom([]string{"a", ".", "é", "\\", "%2e"}).Draw(t, "longUnit"), n)
+			if rapid.Bool().Draw(t, "longPrefix") {
+				return "db/" + seg + "/x.parquet"
+			}
+			return seg
+		case 1:
+			// > PATH_MAX made of legal segments
+			return strings.Repeat(strings.Repeat("p", 250)+"/", rapid.IntRange(15, 20).Draw(t, "pathMaxSegs")) + "x.parquet"
+		default:
+			n := rapid.SampledFrom([]int{8, 20, 60}).Draw(t, "chainLen")
+			return strings.Repeat(rapid.SampledFrom([]string{"../", "/..", "..\\", "./", ".\x00./", "%2e%2e/", "‥/"}).Draw(t, "chainUnit"), n) +
+				rapid.SampledFrom([]string{"", "secret.parquet", "etc/passwd", "root.part", "rootx/f.parquet"}).Draw(t, "chainTail")
 		}
-		return seg
 	}
 	n := rapid.IntRange(1, 7).Draw(t, "nParts")
 	var b strings.Builder
